@@ -119,11 +119,21 @@ func c01EmptyGrid(c *core.Check) {
 		if !ok || (b.Op != token.EQL && b.Op != token.NEQ) {
 			continue
 		}
-		prm, ok := b.X.(*ssa.Parameter)
-		if !ok || (prm.Name() != "gridWidth" && prm.Name() != "gridHeight") {
+		if k, ok := core.ConstInt(b.Y); !ok || k != 0 {
 			continue
 		}
-		if k, ok := core.ConstInt(b.Y); !ok || k != 0 {
+		// gridWidth*gridHeight == 0 tests both at once
+		if mul, ok := b.X.(*ssa.BinOp); ok && mul.Op == token.MUL {
+			px, okx := mul.X.(*ssa.Parameter)
+			py, oky := mul.Y.(*ssa.Parameter)
+			if okx && oky && ((px.Name() == "gridWidth" && py.Name() == "gridHeight") || (px.Name() == "gridHeight" && py.Name() == "gridWidth")) {
+				zs = append(zs, zt{a, "gridWidth", b.Op == token.EQL}, zt{a, "gridHeight", b.Op == token.EQL})
+				atoms = append(atoms, a)
+			}
+			continue
+		}
+		prm, ok := b.X.(*ssa.Parameter)
+		if !ok || (prm.Name() != "gridWidth" && prm.Name() != "gridHeight") {
 			continue
 		}
 		zs = append(zs, zt{a, prm.Name(), b.Op == token.EQL})
@@ -176,9 +186,29 @@ func c01NestedSelectorBound(c *core.Check) {
 			return found
 		}
 		var guards []ssa.Value
+		guardTrueMeansTooLarge := map[ssa.Value]bool{}
 		for _, a := range core.CondAtoms(fn) {
 			call, ok := a.(*ssa.Call)
-			if !ok || call.Call.StaticCallee() == nil || call.Call.StaticCallee() == fn {
+			if !ok {
+				// size(selector) > bound: the comparison is made here on the result of a counting function
+				if cmp, isCmp := a.(*ssa.BinOp); isCmp {
+					for _, side := range []ssa.Value{cmp.X, cmp.Y} {
+						if sc, ok := side.(*ssa.Call); ok && sc.Call.StaticCallee() != nil && sc.Call.StaticCallee() != fn {
+							for _, arg := range sc.Call.Args {
+								if arg == passed {
+									switch {
+									case (cmp.Op == token.GTR || cmp.Op == token.GEQ) && side == cmp.X, (cmp.Op == token.LSS || cmp.Op == token.LEQ) && side == cmp.Y:
+										guards = append(guards, a)
+										guardTrueMeansTooLarge[a] = true
+									}
+								}
+							}
+						}
+					}
+				}
+				continue
+			}
+			if call.Call.StaticCallee() == nil || call.Call.StaticCallee() == fn {
 				continue
 			}
 			takes := false
